@@ -209,6 +209,8 @@ def locate(toks, pt):
             cands += cond_candidates(toks, a, b, kind)
         elif kind == "tail":
             st = stmt_split(toks, a, b)
+            if pt.get("whole_body") and len([x for x in st if x]) != 1:
+                raise LookupError("the body of %s is no longer a single expression: %s" % (pt.get("scope"), toks_text(toks[a:b])[:160]))
             if st and st[-1]:
                 cands.append(st[-1])
         elif kind == "let":
@@ -839,6 +841,11 @@ def translate_match_bool(pt, toks):
     if len(hits) != 1:
         raise LookupError("%d match expressions" % len(hits))
     i, j, e = hits[0]
+    if pt.get("whole_body"):
+        # the function must consist of this match expression and nothing else
+        (a, b) = ranges[0]
+        if len(ranges) != 1 or i != a or e + 1 != b:
+            raise LookupError("the body of %s is no longer a single match expression: %s" % (pt.get("scope"), toks_text(toks[a:b])[:160]))
     arms = []
     k = j + 1
     cur = []
